@@ -129,3 +129,32 @@ func (f *Frame) bindBlockLocalsUpTo(env *SpecEnv, blk *ssa.BasicBlock, upto ssa.
 	}
 	f.bindDebugRefs(env, instrs, st)
 }
+
+// sendAsserts discharges `assert at send: e` clauses of the contract of the function being
+// executed at a channel send (a send statement, or a send case of a select: the value is
+// offered, whether or not the case is taken). In e, `sent` is the value, `sentch` the channel,
+// and local variables defined at the send are visible by name.
+func (f *Frame) sendAsserts(instr ssa.Instruction, ch, val ssa.Value, reach string, st *State) {
+	top := f.top
+	if top == nil || top.contract == nil || f != top {
+		return
+	}
+	for _, a := range top.contract.Asserts {
+		if a.Anchor != "send" {
+			continue
+		}
+		env := f.funcEnv(st, top.entry)
+		if blk := instr.Block(); blk != nil {
+			f.bindLocals(env, blk, st)
+			f.bindBlockLocalsUpTo(env, blk, instr, st)
+		}
+		env.vars["sent"] = env.sv(f.val(val), val.Type())
+		env.vars["sentch"] = env.sv(f.val(ch), ch.Type())
+		g, err := env.evalGoal(a.E)
+		if err != nil {
+			f.bail("assert at send %q: %v", a.Text, err)
+		}
+		top.assertsHit[a.Anchor+"|"+a.Text] = true
+		f.oblig("assert", instr.Pos(), fmt.Sprintf("at send: %s", a.Text), reach, g)
+	}
+}
